@@ -7,6 +7,7 @@
 import UnytModel.DriverBase
 import UnytModel.TempTable
 import UnytModel.TempSeq
+import UnytModel.TempReduce
 
 namespace Unyt
 open Unyt.Temp
@@ -123,6 +124,12 @@ def stepC08 (fields : List String) : String :=
       | .ok l => s!"ok\t{floatsStr (l.map (·.1))}\t{floatsStr (l.map (·.2))}"
       | .error e => s!"err\t{e.str}"
     | _, _, _, _ => "bad-op"
+  -- reductions with a start value carrying units: `np.add.reduce(a, initial=q)`, `np.subtract.reduce(a, initial=q)`
+  | ["c08.redinit", op, a, xs, b, y] =>
+    match (if op == "add" then some RedOp.add else if op == "sub" then some RedOp.sub else none),
+        parseTU a, parseFloats xs, parseTU b, fb y with
+    | some o, some u, some xl, some ui, some xi => lvOut (tempReduceInitial o genSyms genNames tab u xl ui xi)
+    | _, _, _, _, _ => "bad-op"
   | ["c08.reduce", r, a] =>
     match parseRule r, parseTU a with
     | some rule, some u =>
